@@ -21,6 +21,7 @@ from vf.rigs.exprshim import MiniArrow, MiniTable, PaShim, PcShim, keeps, valida
 from vf.runner import Ob
 
 LEVEL = "other"
+TECHNIQUE = ('CrossHair (z3) on the real filter parser and condition builder over an expression shim evaluated on symbolic rows + symx on the real scan plumbing over tables with symbolic cells; shim validated against pyarrow each run')
 EXPLANATION = (
     "CrossHair/z3 on the real filter parser and condition builder over an expression shim evaluated on symbolic rows "
     "(every operator x value type, 'Confirmed over all paths'); symx/z3 on the real scan plumbing of every read API "
